@@ -30,7 +30,8 @@ TRUSTED = [
     "driver.accessories_hash is invariant under set_value/client_update_value on real accessories and that model "
     "rendering equality coincides with real hash equality on the generated restart pairs",
     "SHA-512 (accessories_hash, setup hash) as an arbitrary / injective function; zeroconf ServiceInfo, asyncio, h11 "
-    "as libraries (asyncio: callbacks run to completion on the loop thread, call_soon_threadsafe is FIFO)",
+    "as libraries (asyncio: callbacks run to completion on the loop thread, call_soon_threadsafe is FIFO, no "
+    "data_received after transport.close())",
     "harness generators, harness/ref/dnslabel.py, harness/ref/xhm.py (independent oracles); a well-formed MAC "
     "(XX:XX:XX:XX:XX:XX); safe_mode left at its default (False)",
 ]
@@ -764,6 +765,15 @@ BOUNDARY_SCRIPTS = [
         {"step": "request", "conn": 1, "req": "resource"}, {"step": "request", "conn": 0, "req": "v3", "ok": True},
         {"step": "request", "conn": 0, "req": "remove", "session": 0, "client": 0}, {"step": "exec", "i": 0},
         {"step": "taskDone", "i": 0}, {"step": "quiesce"}]},
+    # self-removal tears the remover's session down after the response; later steps on it are dropped,
+    # a pending snapshot response on a torn-down connection is never written
+    {"paired": [[0, True], [1, True]], "conns": {"0": 0, "1": 1, "2": None}, "steps": [
+        {"step": "request", "conn": 1, "req": "resource"},
+        {"step": "request", "conn": 0, "req": "remove", "session": 0, "client": 1},
+        {"step": "request", "conn": 1, "req": "other"}, {"step": "taskDone", "i": 0},
+        {"step": "request", "conn": 0, "req": "remove", "session": 0, "client": 0},
+        {"step": "request", "conn": 0, "req": "other"},
+        {"step": "request", "conn": 2, "req": "m5", "client": 2, "ok": True}, {"step": "quiesce"}]},
     # failed M5 and unauthorised pairings requests change nothing
     {"paired": [], "conns": {"0": None}, "steps": [
         {"step": "request", "conn": 0, "req": "m5", "client": 0, "ok": False},
@@ -786,10 +796,12 @@ class FakeTransport(asyncio.Transport):
         pass
 
     def write(self, data):
-        self.events.append({"ev": "write", "conn": self.conn, "n": len(data)})
+        # like a real transport: bytes handed over after close() are discarded, not sent
+        self.events.append({"ev": "discarded-write" if self.closed else "write", "conn": self.conn, "n": len(data)})
 
     def writelines(self, lines):
-        self.events.append({"ev": "write", "conn": self.conn, "n": sum(len(x) for x in lines)})
+        self.events.append({"ev": "discarded-write" if self.closed else "write", "conn": self.conn,
+                            "n": sum(len(x) for x in lines)})
 
     def is_closing(self):
         return self.closed
@@ -845,6 +857,7 @@ def impl_sys(m, script) -> Dict[str, Any]:
                     p.handler.client_uuid = _uid(session)
                 protos[int(k)] = p
             deferred = []  # (conn, rid, future)
+            dropped = 0
             reqs = []  # per request: oracle bookkeeping
             rid = 0
             execs_since_spin = 0
@@ -860,6 +873,12 @@ def impl_sys(m, script) -> Dict[str, Any]:
             for st in script["steps"]:
                 if st["step"] == "request":
                     p = protos[st["conn"]]
+                    if p.transport.is_closing():
+                        # the session was torn down (C16 repair): asyncio delivers nothing on a closed
+                        # transport, so the step is dropped here; the model must drop it on its own
+                        model_steps.append({k: v for k, v in st.items()})
+                        dropped += 1
+                        continue
                     current["conn"] = st["conn"]
                     kind = st["req"]
                     before = len(driver.state.paired_clients)
@@ -947,7 +966,9 @@ def impl_sys(m, script) -> Dict[str, Any]:
                     flush_loop()
             final = sorted([[int(u.int) - 1, bool(driver.state.is_admin(u))] for u in driver.state.paired_clients])
             pending = len(ex.pending)
-    return {"events": events, "reqs": reqs, "final": final, "model_steps": model_steps, "pending": pending}
+            closed = sorted(k for k, p in protos.items() if p.transport.is_closing())
+    return {"events": events, "reqs": reqs, "final": final, "model_steps": model_steps, "pending": pending,
+            "closed": closed, "dropped": dropped}
 
 
 def canon_sys_impl(got) -> Dict[str, Any]:
@@ -965,14 +986,16 @@ def canon_sys_impl(got) -> Dict[str, Any]:
         elif e["ev"] == "publish":
             log.append(["publish", e["sf"]])
     last = [e for e in got["events"] if e["ev"] in ("register", "publish")]
-    return {"log": log, "paired": got["final"], "pending": got["pending"], "adv_sf": last[-1]["sf"] if last else None}
+    return {"log": log, "paired": got["final"], "pending": got["pending"], "adv_sf": last[-1]["sf"] if last else None,
+            "closed": got["closed"]}
 
 
 def canon_sys_model(ans) -> Dict[str, Any]:
     log = []
     for e in ans.get("log", []):
         log.append(["publish", e[2]] if e[0] == "publish" else e)
-    return {"log": log, "paired": sorted(ans.get("paired", [])), "pending": ans.get("pending"), "adv_sf": ans.get("adv_sf")}
+    return {"log": log, "paired": sorted(ans.get("paired", [])), "pending": ans.get("pending"), "adv_sf": ans.get("adv_sf"),
+            "closed": sorted(ans.get("closed", []))}
 
 
 def oracle_sys(ctx: Ctx, script, got):
@@ -1215,7 +1238,8 @@ def run(ctx: Ctx):
     for i, script in enumerate(scripts):
         got = impl_sys(m, script)
         oracle_sys(ctx, script, got)
-        lines.append({"layer": "advert", "op": "sys", "paired": script["paired"], "steps": got["model_steps"]})
+        lines.append({"layer": "advert", "op": "sys", "paired": script["paired"], "steps": got["model_steps"],
+                      "sessions": [[int(k), v] for k, v in script["conns"].items() if v is not None]})
         impl.append(canon_sys_impl(got))
         post.append(("sys", script, canon_sys_model))
         changing = [r for r in got["reqs"] if r["m5ok"] or ((r["before"] == 0) != (r["after"] == 0))]
@@ -1225,6 +1249,8 @@ def run(ctx: Ctx):
             st.hit("op", "sys-" + (s.get("req") or s["step"]))
         st.hit("outcome", "sys-pairing-changed" if changing else "sys-no-change")
         st.hit("outcome", "sys-publishes", sum(1 for e in got["events"] if e["ev"] == "publish"))
+        st.hit("outcome", "sys-sessions-closed", len(got["closed"]))
+        st.hit("outcome", "sys-requests-dropped-on-closed-connection", got["dropped"])
         if i == 1:
             st.sample({"sys_script": script, "impl_trace": canon_sys_impl(got)})
 
